@@ -35,6 +35,9 @@ pub struct BigUint {
 //@ include prelude/biguint_view.rs
 pub open spec fn p2(k: nat) -> nat { vstd::arithmetic::power2::pow2(k) }
 impl BigUint {
+//@ extract src/biguint.rs :: impl BigUint :: const ZERO rules=R9,R13 label=BigUint_ZERO
+    exec const ZERO: Self /*+*/ensures Self::ZERO.data@.len() == 0 /*-*/{ BigUint { data: Vec::new() } }
+//@ end
 //@ stub u_core/is_zero
 }
 
@@ -54,6 +57,9 @@ fn ilog2(v: u32) -> (r: u8)
 //@ stub u_digits/to_inexact_bitwise_digits_le
 
 //@ stub u_radixcore/to_radix_digits_le
+//@ stub u_radixcore/from_radix_digits_be
+//@ stub u_digits/from_bitwise_digits_le
+//@ stub u_digits/from_inexact_bitwise_digits_le
 
 pub proof fn lemma_pow2_bits(radix: u32, bits: u8)
     requires 2 <= radix <= 256, bits < 32, (1u32 << bits) == radix
@@ -125,6 +131,155 @@ pub(super) fn to_radix_le(u: &BigUint, radix: u32) -> /*+*/(r: /*-*/Vec<u8>/*+*/
 //+}
         to_radix_digits_le(u, radix)
     }
+}
+//@ end
+
+
+pub open spec fn has_bad_digit(s: Seq<u8>, radix: u32) -> bool { radix != 256 && exists|i: int| 0 <= i < s.len() && s[i] as u32 >= radix }
+
+pub proof fn lemma_digits_ok(s: Seq<u8>, radix: u32)
+    requires 2 <= radix <= 256, !(radix != 256 && exists|i: int| 0 <= i < s.len() && s[i] >= (radix as u8))
+    ensures digits_below(s, radix), !has_bad_digit(s, radix)
+{
+    assert forall|i: int| 0 <= i < s.len() implies (#[trigger] s[i] as u32) < radix by {
+        if radix != 256 { assert(!(s[i] >= (radix as u8))); assert((radix as u8) as u32 == radix); }
+    }
+}
+
+pub proof fn lemma_digits_bad(s: Seq<u8>, radix: u32)
+    requires 2 <= radix < 256, exists|i: int| 0 <= i < s.len() && s[i] >= (radix as u8)
+    ensures has_bad_digit(s, radix)
+{
+    let i = choose|i: int| 0 <= i < s.len() && s[i] >= (radix as u8);
+    assert((radix as u8) as u32 == radix);
+    assert(s[i] as u32 >= radix);
+}
+
+pub proof fn lemma_rev_rev(s: Seq<u8>)
+    ensures rev8(rev8(s)) =~= s
+{
+}
+
+//@ extract src/biguint/convert.rs :: fn from_radix_be rules=R0,R11,R12d,R30e props=C06,C14
+pub(super) fn from_radix_be(buf: &[u8], radix: u32) -> /*+*/(r: /*-*/Option<BigUint>/*+*/)/*-*/
+//+{
+    requires !mp() ==> 2 <= radix <= 256
+    ensures mp() ==> 2 <= radix <= 256,
+        r is None <==> has_bad_digit(buf@, radix),
+        r is Some ==> r.unwrap().wf() && r.unwrap().v() == valr(rev8(buf@), radix as nat, buf@.len()),
+//+}
+{
+    __assert(2 <= radix && radix <= 256);
+
+    if buf.is_empty() {
+//+{
+        proof { assert(rev8(buf@) =~= buf@); }
+//+}
+        return Some(BigUint::ZERO);
+    }
+
+    if radix != 256 && __any_ge(buf, radix as u8) {
+//+{
+        proof { lemma_digits_bad(buf@, radix); }
+//+}
+        return None;
+    }
+//+{
+    proof { lemma_digits_ok(buf@, radix); }
+//+}
+
+    let res = if radix.is_power_of_two() {
+        // Powers of two can use bitwise masks and shifting instead of multiplication
+        let bits = ilog2(radix);
+//+{
+        proof { lemma_pow2_bits(radix, bits); lemma_radix_is_p2(radix, bits); }
+//+}
+        let mut v = buf.to_vec();
+//+{
+        assert(v@ == buf@);
+//+}
+        v.reverse();
+//+{
+        proof {
+            assert(v@ =~= rev8(buf@));
+            lemma_valb_is_valr(v@, bits as nat, v@.len());
+            assert forall|i: int| 0 <= i < v@.len() implies (#[trigger] v@[i] as nat) < p2(bits as nat) by { assert(v@[i] == buf@[buf@.len() - 1 - i]); }
+        }
+//+}
+        if big_digit::BITS % bits == 0 {
+            from_bitwise_digits_le(&v, bits)
+        } else {
+            from_inexact_bitwise_digits_le(&v, bits)
+        }
+    } else {
+//+{
+        proof { lemma_not_pow2_range(radix); lemma_valbe_is_valr(buf@, radix as nat); }
+//+}
+        from_radix_digits_be(buf, radix)
+    };
+
+    Some(res)
+}
+//@ end
+
+//@ extract src/biguint/convert.rs :: fn from_radix_le rules=R0,R11,R12d,R30e props=C06,C14
+pub(super) fn from_radix_le(buf: &[u8], radix: u32) -> /*+*/(r: /*-*/Option<BigUint>/*+*/)/*-*/
+//+{
+    requires !mp() ==> 2 <= radix <= 256
+    ensures mp() ==> 2 <= radix <= 256,
+        r is None <==> has_bad_digit(buf@, radix),
+        r is Some ==> r.unwrap().wf() && r.unwrap().v() == valr(buf@, radix as nat, buf@.len()),
+//+}
+{
+    __assert(2 <= radix && radix <= 256);
+
+    if buf.is_empty() {
+        return Some(BigUint::ZERO);
+    }
+
+    if radix != 256 && __any_ge(buf, radix as u8) {
+//+{
+        proof { lemma_digits_bad(buf@, radix); }
+//+}
+        return None;
+    }
+//+{
+    proof { lemma_digits_ok(buf@, radix); }
+//+}
+
+    let res = if radix.is_power_of_two() {
+        // Powers of two can use bitwise masks and shifting instead of multiplication
+        let bits = ilog2(radix);
+//+{
+        proof {
+            lemma_pow2_bits(radix, bits); lemma_radix_is_p2(radix, bits);
+            lemma_valb_is_valr(buf@, bits as nat, buf@.len());
+        }
+//+}
+        if big_digit::BITS % bits == 0 {
+            from_bitwise_digits_le(buf, bits)
+        } else {
+            from_inexact_bitwise_digits_le(buf, bits)
+        }
+    } else {
+        let mut v = buf.to_vec();
+//+{
+        assert(v@ == buf@);
+//+}
+        v.reverse();
+//+{
+        proof {
+            assert(v@ =~= rev8(buf@));
+            lemma_not_pow2_range(radix);
+            lemma_valbe_is_valr(v@, radix as nat);
+            lemma_rev_rev(buf@);
+            assert forall|i: int| 0 <= i < v@.len() implies (#[trigger] v@[i] as u32) < radix by { assert(v@[i] == buf@[buf@.len() - 1 - i]); }
+        }
+//+}
+        from_radix_digits_be(&v, radix)
+    };
+
+    Some(res)
 }
 //@ end
 
@@ -230,6 +385,32 @@ impl BigUint {
         }
 //+}
         __from_utf8_unchecked(v)
+    }
+//@ end
+
+//@ extract src/biguint.rs :: impl BigUint :: fn from_radix_be props=C06,C14 label=pub_from_radix_be
+    pub fn from_radix_be(buf: &[u8], radix: u32) -> /*+*/(r: /*-*/Option<BigUint>/*+*/)/*-*/
+//+{
+        requires !mp() ==> 2 <= radix <= 256
+        ensures mp() ==> 2 <= radix <= 256,
+            r is None <==> convert::has_bad_digit(buf@, radix),
+            r is Some ==> r.unwrap().wf() && r.unwrap().v() == valr(rev8(buf@), radix as nat, buf@.len()),
+//+}
+    {
+        convert::from_radix_be(buf, radix)
+    }
+//@ end
+
+//@ extract src/biguint.rs :: impl BigUint :: fn from_radix_le props=C06,C14 label=pub_from_radix_le
+    pub fn from_radix_le(buf: &[u8], radix: u32) -> /*+*/(r: /*-*/Option<BigUint>/*+*/)/*-*/
+//+{
+        requires !mp() ==> 2 <= radix <= 256
+        ensures mp() ==> 2 <= radix <= 256,
+            r is None <==> convert::has_bad_digit(buf@, radix),
+            r is Some ==> r.unwrap().wf() && r.unwrap().v() == valr(buf@, radix as nat, buf@.len()),
+//+}
+    {
+        convert::from_radix_le(buf, radix)
     }
 //@ end
 
